@@ -116,6 +116,28 @@ func (t *tlInfo) chanRole(v ssa.Value) string {
 			return role
 		}
 	}
+	// an element of a slice the constructor made and installed in a lane-list field, read through the local variable
+	// (`go tl.startQueue(bufferedQueueList[i], …)` before or after `tl.bufferedQueueList = bufferedQueueList`)
+	if ld, ok := v.(*ssa.UnOp); ok && ld.Op == token.MUL {
+		if ia, ok := ld.X.(*ssa.IndexAddr); ok {
+			if ms, ok := sx.Unspill(ia.X).(*ssa.MakeSlice); ok && ms.Referrers() != nil {
+				for _, u := range *ms.Referrers() {
+					st, ok := u.(*ssa.Store)
+					if !ok || st.Val != ssa.Value(ms) {
+						continue
+					}
+					if fa, ok := st.Addr.(*ssa.FieldAddr); ok {
+						switch f := sx.FieldOf(fa); {
+						case f != nil && f == t.Buffered:
+							return "buffered"
+						case f != nil && f == t.Blocking:
+							return "blocking"
+						}
+					}
+				}
+			}
+		}
+	}
 	org := t.origins(v)
 	if len(org) != 1 {
 		// a channel variable that is sometimes the lane's channel and sometimes something else (nil, another channel)
